@@ -383,6 +383,9 @@ func main() {
 				if v.Op == token.AND {
 					write(v.X, "address-taken", v)
 				}
+				if v.Op == token.ARROW {
+					s.out.EnvReads = append(s.out.EnvReads, s.site(fn, "chan:recv", v))
+				}
 			case *ast.CallExpr:
 				if id, ok := v.Fun.(*ast.Ident); ok {
 					switch id.Name {
@@ -400,6 +403,14 @@ func main() {
 						}
 					case "panic":
 						s.out.Panics = append(s.out.Panics, s.site(fn, "panic", v))
+					case "make":
+						if len(v.Args) > 0 {
+							if t := info.TypeOf(v.Args[0]); t != nil {
+								if _, ok := t.Underlying().(*types.Chan); ok {
+									s.out.EnvReads = append(s.out.EnvReads, s.site(fn, "chan:make", v))
+								}
+							}
+						}
 					}
 				}
 				if sel, ok := v.Fun.(*ast.SelectorExpr); ok {
@@ -419,9 +430,18 @@ func main() {
 						st := s.site(fn, "map-range", v.X)
 						s.out.MapRanges = append(s.out.MapRanges, st)
 					}
+					if _, ok := t.Underlying().(*types.Chan); ok {
+						s.out.EnvReads = append(s.out.EnvReads, s.site(fn, "chan:range", v.X))
+					}
 				}
 			case *ast.GoStmt:
 				s.out.GoStmts = append(s.out.GoStmts, s.site(fn, "go", v))
+			case *ast.SelectorExpr:
+				s.envVar(info, fn, v)
+			case *ast.SendStmt:
+				s.out.EnvReads = append(s.out.EnvReads, s.site(fn, "chan:send", v))
+			case *ast.SelectStmt:
+				s.out.EnvReads = append(s.out.EnvReads, s.site(fn, "chan:select", v))
 			case *ast.TypeAssertExpr:
 				if v.Type == nil {
 					return true // type switch
@@ -519,6 +539,14 @@ func main() {
 	if s.out.EnvReads == nil {
 		s.out.EnvReads = []Site{}
 	}
+	// files are loaded in no fixed order: list the sites by position in the source
+	sort.SliceStable(s.out.EnvReads, func(i, j int) bool {
+		a, b := s.out.EnvReads[i], s.out.EnvReads[j]
+		if a.File != b.File {
+			return a.File < b.File
+		}
+		return a.Line < b.Line
+	})
 	if s.out.GoStmts == nil {
 		s.out.GoStmts = []Site{}
 	}
@@ -537,10 +565,49 @@ func (s *scanner) envRead(info *types.Info, fn string, d *ast.FuncDecl, sel *ast
 			case name == "time.Now" || name == "time.Since" || name == "time.Until",
 				name == "os.Getenv" || name == "os.LookupEnv" || name == "os.Environ" || name == "os.Getwd" ||
 					name == "os.Hostname" || name == "os.Getpid" || name == "os.UserHomeDir",
-				pth == "math/rand" || pth == "math/rand/v2" || name == "time.LoadLocation":
+				pth == "math/rand" || pth == "math/rand/v2" || name == "time.LoadLocation",
+				// the number of processors / threads the scheduler may use, the program's own path,
+				// the invoking user, directories taken from the environment, the working directory
+				// (filepath.Abs joins it), name resolution and the network
+				name == "runtime.GOMAXPROCS" || name == "runtime.NumCPU" || name == "runtime.NumGoroutine",
+				name == "os.Executable" || name == "os.TempDir" || name == "os.UserCacheDir" || name == "os.UserConfigDir" ||
+					name == "os.ExpandEnv" || name == "os.Getppid" || name == "os.Getuid" || name == "os.Geteuid" ||
+					name == "os.Getgid" || name == "os.Getegid" || name == "os.Getgroups",
+				name == "syscall.Getenv" || name == "syscall.Environ" || name == "syscall.Getwd" || name == "syscall.Umask",
+				pth == "os/user",
+				name == "path/filepath.Abs" || name == "path/filepath.EvalSymlinks",
+				pth == "net" && (strings.HasPrefix(sel.Sel.Name, "Lookup") || strings.HasPrefix(sel.Sel.Name, "Dial") ||
+					strings.HasPrefix(sel.Sel.Name, "Listen") || strings.HasPrefix(sel.Sel.Name, "Interface") || strings.HasPrefix(sel.Sel.Name, "Resolve")),
+				pth == "net/http" || pth == "os/exec" || pth == "crypto/rand":
 				s.out.EnvReads = append(s.out.EnvReads, s.site(fn, "env:"+name, call))
+			// the standard logger stamps every line with the wall-clock time in the local zone
+			case pth == "log" && (strings.HasPrefix(sel.Sel.Name, "Print") || strings.HasPrefix(sel.Sel.Name, "Fatal") || strings.HasPrefix(sel.Sel.Name, "Panic")):
+				s.out.EnvReads = append(s.out.EnvReads, s.site(fn, "clock:"+name, call))
 			}
 			return
+		}
+	}
+	// methods on sync.WaitGroup (a function that waits for goroutines collects their results in
+	// completion order unless it indexes them), *net.Resolver, *log.Logger
+	if t := info.TypeOf(sel.X); t != nil {
+		if p, ok := t.(*types.Pointer); ok {
+			t = p.Elem()
+		}
+		if nt, ok := t.(*types.Named); ok && nt.Obj().Pkg() != nil {
+			switch q := nt.Obj().Pkg().Path() + "." + nt.Obj().Name(); {
+			case q == "sync.WaitGroup":
+				s.out.EnvReads = append(s.out.EnvReads, s.site(fn, "sync:WaitGroup."+sel.Sel.Name, call))
+				return
+			case q == "golang.org/x/sync/errgroup.Group":
+				s.out.EnvReads = append(s.out.EnvReads, s.site(fn, "sync:errgroup."+sel.Sel.Name, call))
+				return
+			case q == "net.Resolver" && strings.HasPrefix(sel.Sel.Name, "Lookup"):
+				s.out.EnvReads = append(s.out.EnvReads, s.site(fn, "env:net.Resolver."+sel.Sel.Name, call))
+				return
+			case q == "log.Logger" && (strings.HasPrefix(sel.Sel.Name, "Print") || strings.HasPrefix(sel.Sel.Name, "Fatal") || strings.HasPrefix(sel.Sel.Name, "Panic")):
+				s.out.EnvReads = append(s.out.EnvReads, s.site(fn, "clock:log.Logger."+sel.Sel.Name, call))
+				return
+			}
 		}
 	}
 	// methods on time.Time
@@ -563,6 +630,27 @@ func (s *scanner) envRead(info *types.Info, fn string, d *ast.FuncDecl, sel *ast
 		} else {
 			s.out.EnvReads = append(s.out.EnvReads, s.site(fn, "format-zone-unknown", call))
 		}
+	}
+}
+
+// envVar records references to package-level variables of the standard library that hold a
+// part of the process environment: os.Args (argv, incl. the program's own path), time.Local and
+// the system's random source.
+func (s *scanner) envVar(info *types.Info, fn string, sel *ast.SelectorExpr) {
+	id, ok := sel.X.(*ast.Ident)
+	if !ok {
+		return
+	}
+	pn, isPkg := info.ObjectOf(id).(*types.PkgName)
+	if !isPkg {
+		return
+	}
+	if _, isVar := info.ObjectOf(sel.Sel).(*types.Var); !isVar {
+		return
+	}
+	switch name := pn.Imported().Path() + "." + sel.Sel.Name; name {
+	case "os.Args", "time.Local", "crypto/rand.Reader":
+		s.out.EnvReads = append(s.out.EnvReads, s.site(fn, "env:"+name, sel))
 	}
 }
 
